@@ -269,6 +269,20 @@ def generate(seed: int, tier: str) -> Dict[str, Any]:
         raw.setdefault("t4", {})["enabled"] = True
         raw.pop("scheduler", None)
         ops = [{"op": "turn", "agent": agent, "text": text, "turn_id": i, "now_ms": E.T0_MS} for i in range(r.randint(3, 5))]
+    if r.chance(0.06) and len(world.get("episodes") or []) >= 1:
+        # the memory emptied and refilled with as many OTHER episodes as it held (a re-import): the same question at the same
+        # logical time, before and after - whatever names the memory's content in a cache key has to tell the two apart
+        agent, text = sorted(world["agents"])[0], ro.choice(texts if texts else ["apple river"])
+        raw.setdefault("t2", {}).update({"sim_threshold": -1.0, "owner_scope": r.choice(["any", "agent"])})
+        raw.setdefault("t4", {})["enabled"] = r.chance(0.5)
+        n_eps = len(world["episodes"])
+        t = lambda i: {"op": "turn", "agent": agent, "text": text, "turn_id": i, "now_ms": E.T0_MS}  # noqa: E731
+        ops = [t(0), {"op": "clear_memory", "kind": "clear_memory"}]
+        for j in range(n_eps):
+            ops.append({"op": "add_episode", "kind": "add_episode",
+                        "ep": {"id": "re%02d" % j, "owner": r.choice(sorted(world["agents"]) + ["world"]), "text": " ".join(r.sample(E.VOCAB, r.randint(1, 3))),
+                               "ts": E.iso_from_ms(E.T0_MS - 1000).replace("+00:00", "Z"), "vec": "text"}})
+        ops.append(t(1))
     if r.chance(0.08) and len(world["graphs"]) >= 2:
         # slice budgets shared by the graphs of one turn: what is left for a later graph depends on what the earlier ones used, so the
         # same graph with the same seeds is propagated under different caps from turn to turn (the version stands still: T4 off)
